@@ -24,7 +24,18 @@ func TestMain(m *testing.M) { vt.Main(m, "C05") }
 type prop struct {
 	kind string // val | meth | func | missing | missingval
 	v    int
+	lit  string // for val/missingval: the literal (its source and its Inspect rendering coincide)
 }
+
+func (p prop) show() string {
+	if p.lit != "" {
+		return p.lit
+	}
+	return fmt.Sprint(p.v)
+}
+
+// odd values a property may hold: falsy ones must still count as "found"
+var oddLits = []string{"nil", "false", "0", `""`, "[]", "{}", "true"}
 
 type node struct {
 	name   string
@@ -168,7 +179,7 @@ func newMachine() *machine {
 
 func (m *machine) literal(t *rapid.T, n *node) string {
 	n.id = len(m.nodes)
-	n.own["id"] = prop{"val", n.id}
+	n.own["id"] = prop{kind: "val", v: n.id}
 	parts := []string{fmt.Sprintf("id: %d", n.id)}
 	for _, k := range names {
 		if rapid.IntRange(0, 3).Draw(t, "has_"+k) != 0 {
@@ -176,24 +187,33 @@ func (m *machine) literal(t *rapid.T, n *node) string {
 		}
 		v := rapid.IntRange(10, 99).Draw(t, "v")
 		switch rapid.IntRange(0, 3).Draw(t, "kind") {
-		case 0, 1:
-			n.own[k] = prop{"val", v}
+		case 0:
+			n.own[k] = prop{kind: "val", v: v}
 			parts = append(parts, fmt.Sprintf("%s: %d", k, v))
+		case 1:
+			lit := rapid.SampledFrom(oddLits).Draw(t, "lit")
+			n.own[k] = prop{kind: "val", lit: lit}
+			parts = append(parts, fmt.Sprintf("%s: %s", k, lit))
 		case 2:
-			n.own[k] = prop{"meth", v}
+			n.own[k] = prop{kind: "meth", v: v}
 			parts = append(parts, fmt.Sprintf("%s: m{|x| [self.id, %d, x]}", k, v))
 		case 3:
-			n.own[k] = prop{"func", v}
+			n.own[k] = prop{kind: "func", v: v}
 			parts = append(parts, fmt.Sprintf("%s: {|s, x| [s.id, %d, x]}", k, v))
 		}
 	}
 	if rapid.IntRange(0, 3).Draw(t, "has_missing") == 0 {
 		v := rapid.IntRange(10, 99).Draw(t, "mv")
-		if rapid.IntRange(0, 3).Draw(t, "missing_kind") == 0 {
-			n.own["_missing"] = prop{"missingval", v}
+		switch rapid.IntRange(0, 4).Draw(t, "missing_kind") {
+		case 0:
+			n.own["_missing"] = prop{kind: "missingval", v: v}
 			parts = append(parts, fmt.Sprintf("_missing: %d", v))
-		} else {
-			n.own["_missing"] = prop{"missing", v}
+		case 1:
+			lit := rapid.SampledFrom(oddLits).Draw(t, "mlit")
+			n.own["_missing"] = prop{kind: "missingval", lit: lit}
+			parts = append(parts, fmt.Sprintf("_missing: %s", lit))
+		default:
+			n.own["_missing"] = prop{kind: "missing", v: v}
 			parts = append(parts, fmt.Sprintf("_missing: m{|n| [self.id, %d, n, \\0[2:]]}", v))
 		}
 	}
@@ -218,7 +238,11 @@ func (m *machine) add(t *rapid.T, how string) {
 	case "lit":
 		src = n.name + " := " + m.literal(t, n)
 	case "bear":
-		p := m.nodes[rapid.IntRange(0, len(m.nodes)-1).Draw(t, "parent")]
+		// prefer recent nodes as parents so that chains get deep
+		p := m.nodes[len(m.nodes)-1]
+		if rapid.IntRange(0, 2).Draw(t, "anyparent") == 0 {
+			p = m.nodes[rapid.IntRange(0, len(m.nodes)-1).Draw(t, "parent")]
+		}
 		n.parent = p
 		src = n.name + " := " + p.name + ".bear(" + m.literal(t, n) + ")"
 	case "bro":
@@ -249,9 +273,9 @@ func (m *machine) queries(o *node, name string, nargs int) (qs []Query, class st
 	case found && p.kind == "val":
 		class = "value"
 		qs = append(qs,
-			Query{"call", call, Expect{Inspect: sp(fmt.Sprint(p.v))}},
+			Query{"call", call, Expect{Inspect: sp(p.show())}},
 			Query{"which", o.name + ".which(" + sym + ")", Expect{Same: sp(owner.name)}},
-			Query{"index", o.name + "[" + sym + "]", Expect{Inspect: sp(fmt.Sprint(p.v))}})
+			Query{"index", o.name + "[" + sym + "]", Expect{Inspect: sp(p.show())}})
 	case found && (p.kind == "meth" || p.kind == "func"):
 		class = "callable"
 		qs = append(qs,
@@ -273,7 +297,7 @@ func (m *machine) queries(o *node, name string, nargs int) (qs []Query, class st
 		case mp.kind == "missingval":
 			class = "missing-noncallable"
 			nontrivial = true
-			qs = append(qs, Query{"call", call, Expect{Inspect: sp(fmt.Sprint(mp.v))}})
+			qs = append(qs, Query{"call", call, Expect{Inspect: sp(mp.show())}})
 		default:
 			class = "missing-callable"
 			nontrivial = true
